@@ -16,9 +16,11 @@ import (
 	metav1 "k8s.io/apimachinery/pkg/apis/meta/v1"
 	"k8s.io/apimachinery/pkg/types"
 
+	schedulingv1alpha2 "github.com/NVIDIA/KAI-scheduler/pkg/apis/scheduling/v1alpha2"
 	enginev2alpha2 "github.com/NVIDIA/KAI-scheduler/pkg/apis/scheduling/v2alpha2"
 	commonconstants "github.com/NVIDIA/KAI-scheduler/pkg/common/constants"
 	"github.com/NVIDIA/KAI-scheduler/pkg/scheduler/api"
+	"github.com/NVIDIA/KAI-scheduler/pkg/scheduler/api/bindrequest_info"
 	"github.com/NVIDIA/KAI-scheduler/pkg/scheduler/api/common_info"
 	"github.com/NVIDIA/KAI-scheduler/pkg/scheduler/api/node_info"
 	"github.com/NVIDIA/KAI-scheduler/pkg/scheduler/api/pod_info"
@@ -72,7 +74,24 @@ type tspec struct {
 	CPUm    int64    `json:"cpuMilli"`
 	MemMB   int64    `json:"memMB"`
 	NodeMem int64    `json:"nodeGpuMemory"` // MemoryOfEveryGpuOnNode of the node it is placed on
+	// State: for a pod of the snapshot (seqCase.Init), what the cluster says about it when the cycle starts; one of
+	// snapStates. "" = pending.
+	State string `json:"state,omitempty"`
 }
+
+// snapStates are the situations a pod that belongs to a queue can be in when a snapshot is taken, named after the
+// status the snapshot derives for it (getTaskStatus): pending; gated (scheduling gates); binding (pending, no
+// nodeName, a BindRequest of an earlier cycle in flight); bound (nodeName set, phase Pending); running; releasing
+// (on a node, deletionTimestamp); releasing-unbound (pending pod being deleted, no node); succeeded / failed /
+// unknown (phase). "allocated" cannot come out of getTaskStatus (it is a legal key of PodStatusIndex and a member of
+// AllocatedStatus): built as bound and set by hand. Pipelined exists only inside a session.
+var snapStates = []string{"pending", "gated", "allocated", "binding", "bound", "running", "releasing", "releasing-unbound",
+	"succeeded", "failed", "unknown"}
+
+var stateStatus = map[string]pod_status.PodStatus{"": pod_status.Pending, "pending": pod_status.Pending, "gated": pod_status.Gated,
+	"allocated": pod_status.Allocated, "binding": pod_status.Binding, "bound": pod_status.Bound, "running": pod_status.Running,
+	"releasing": pod_status.Releasing, "releasing-unbound": pod_status.Releasing, "succeeded": pod_status.Succeeded,
+	"failed": pod_status.Failed, "unknown": pod_status.Unknown}
 
 type jspec struct {
 	Name        string  `json:"name"`
@@ -224,6 +243,62 @@ func (w *world) task(jobName string, t tspec) *pod_info.PodInfo {
 		w.vm.AddResourceList(c.Resources.Requests)
 	}
 	return pod_info.NewTaskInfo(pod, claims, w.vm)
+}
+
+// snapTask builds a pod of the snapshot the way the snapshot does: the v1.Pod in the situation t.State describes,
+// the BindRequest if one is in flight, pod_info.NewTaskInfoWithBindRequest (status from getTaskStatus, NodeName from
+// spec.nodeName or the BindRequest's SelectedNode), and NodeInfo.AddTasksToNode of the node it names (which accounts
+// the pods in an active-used status and sets their AcceptedResource).
+func (w *world) snapTask(jobName string, t tspec) *pod_info.PodInfo {
+	pod, claims := buildPod(jobName, t)
+	for _, c := range pod.Spec.Containers {
+		w.vm.AddResourceList(c.Resources.Requests)
+	}
+	node := w.node(t.NodeMem)
+	now := metav1.NewTime(time.Unix(1700000000, 0))
+	var br *bindrequest_info.BindRequestInfo
+	switch t.State {
+	case "", "pending":
+	case "gated":
+		pod.Spec.SchedulingGates = []v1.PodSchedulingGate{{Name: "kai.scheduler/gate"}}
+	case "binding":
+		br = bindrequest_info.NewBindRequestInfo(&schedulingv1alpha2.BindRequest{
+			ObjectMeta: metav1.ObjectMeta{Name: t.Name, Namespace: "ns"},
+			Spec:       schedulingv1alpha2.BindRequestSpec{PodName: t.Name, SelectedNode: node.Name}})
+	case "bound", "allocated":
+		pod.Spec.NodeName = node.Name
+	case "running":
+		pod.Spec.NodeName = node.Name
+		pod.Status.Phase = v1.PodRunning
+	case "releasing":
+		pod.Spec.NodeName = node.Name
+		pod.Status.Phase = v1.PodRunning
+		pod.DeletionTimestamp = &now
+	case "releasing-unbound":
+		pod.DeletionTimestamp = &now
+	case "succeeded":
+		pod.Spec.NodeName = node.Name
+		pod.Status.Phase = v1.PodSucceeded
+	case "failed":
+		pod.Spec.NodeName = node.Name
+		pod.Status.Phase = v1.PodFailed
+	case "unknown":
+		pod.Spec.NodeName = node.Name
+		pod.Status.Phase = v1.PodUnknown
+	default:
+		panic("unknown snapshot state " + t.State)
+	}
+	ti := pod_info.NewTaskInfoWithBindRequest(pod, br, claims, w.vm)
+	if t.State == "allocated" {
+		ti.Status = pod_status.Allocated
+	}
+	if ti.Status != stateStatus[t.State] {
+		panic(fmt.Sprintf("snapshot gave pod in state %q the status %v", t.State, ti.Status))
+	}
+	if ti.NodeName != "" {
+		w.nodes[t.NodeMem].AddTasksToNode([]*pod_info.PodInfo{ti}, map[common_info.PodID]*pod_info.PodInfo{})
+	}
+	return ti
 }
 
 func (w *world) job(j jspec, tasks []*pod_info.PodInfo) *podgroup_info.PodGroupInfo {
